@@ -377,6 +377,19 @@ static void prop(Src& s) {
     if (ref.threw && !ref.objs.empty()) vp::count("error_after_objects");
     if (nontrivial_plans > 0) vp::nontrivial(vp::hash_str(bytes));
 }
+
+VP_BUILTIN(F34_opl_line_starting_with_nul_cut_after_its_first_byte) {
+    // a line whose first byte is NUL is skipped and not counted; when the input was cut inside that line it used to be counted, so the
+    // line number in the error for the broken line that follows depended on the chunking
+    const std::string bytes = std::string("\0n1 v1\n", 7) + "n2 vX\n";
+    g_plan.clear();
+    const Result ref = read_all(osmium::io::File{bytes.data(), bytes.size(), "opl.gz"});
+    for (size_t c = 1; c < bytes.size(); ++c) {
+        g_plan = {c};
+        const Result r = read_all(osmium::io::File{bytes.data(), bytes.size(), "opl.gz"});
+        VP_CHECK(r == ref, "chunking-changes-result", "OPL file \"\\0n1 v1\\nn2 vX\\n\": delivered in one piece [" << ref.brief() << "], cut after byte " << c << " [" << r.brief() << "]");
+    }
+}
 #else
 // ---------------------------------------------------------------- routes B and C: real decompressors (tiny input buffer / pipe)
 static std::string gz(const std::string& in) {
